@@ -474,6 +474,29 @@ def pebbling_clauses(n, preds):
     return out
 
 
+def peb_via_cnfgen(text):
+    """the formula `cnfgen -q peb <file>` builds from a kthlist file with this text"""
+    from cnfgen.clitools.cnfgen import cli as cli_cnfgen
+    d = tempfile.mkdtemp(prefix="verif-tools-")
+    old_in = sys.stdin
+    try:
+        p = os.path.join(d, "g.kthlist")
+        with open(p, "w", encoding="utf-8", newline="") as fh:
+            fh.write(text)
+        sys.stdin = io.StringIO("")
+        msgmod._prefix = ""
+        with contextlib.redirect_stdout(io.StringIO()), contextlib.redirect_stderr(io.StringIO()):
+            try:
+                F = cli_cnfgen(["cnfgen", "-q", "peb", p], mode="formula")
+            except BaseException as e:  # noqa
+                return (type(e).__name__, [])
+        return F.number_of_variables(), [list(c) for c in F.clauses()]
+    finally:
+        sys.stdin = old_in
+        msgmod._prefix = ""
+        shutil.rmtree(d, True)
+
+
 def satisfiable(n, clauses):
     for alpha in common.assignments(n):
         if common.cnf_holds(clauses, alpha):
@@ -664,15 +687,17 @@ def apply_draws(n, clauses, draws, argv_flags):
     m = len(clauses)
     nof, nov, noc = argv_flags
     fl = [1] * n if nof else choices
-    if len(fl) != n or (nof and choices):
-        return None
+    if nof and choices:
+        return "polarity flips were drawn although they are switched off"
+    if len(fl) != n:
+        return "{} polarity flips drawn for {} variables".format(len(fl), n)
     want = (0 if nov else 1) + (0 if noc else 1)
     if len(shuffles) != want:
-        return None
+        return "{} lists shuffled, {} permuted components requested".format(len(shuffles), want)
     vp = list(range(1, n + 1)) if nov else shuffles[0]
     cp = list(range(m)) if noc else shuffles[-1]
     if sorted(vp) != list(range(1, n + 1)) or sorted(cp) != list(range(m)) or any(abs(x) != 1 for x in fl):
-        return None
+        return "the draws are not flips in {-1,1} and permutations of the variables / clause positions"
     out = [None] * m
     for i, c in enumerate(clauses):
         out[cp[i]] = [(1 if l > 0 else -1) * fl[abs(l) - 1] * vp[abs(l) - 1] for l in c]
@@ -739,8 +764,8 @@ def property_oracle(suite, tool, argv, files, obs, senv):
                 continue
             if plain:
                 exp = apply_draws(n, cl, obs["draws"], flags)
-                if exp is None:
-                    why = "the recorded draws are not one choice per variable and one shuffle per permuted component"
+                if isinstance(exp, str):
+                    why = exp
                     continue
                 if exp != gcl:
                     why = "output is not the input renamed and reordered as drawn"
@@ -769,6 +794,12 @@ def property_oracle(suite, tool, argv, files, obs, senv):
             continue
         if 1 <= n <= 12 and satisfiable(gn, gcl):
             return dict(where, outcome="pebbling formula is satisfiable", output=[gn, gcl])
+        if (n + len(gcl)) % 4 == 0 or n <= 3:
+            # `cnfgen peb <file>` on the same text must build the same formula (sampled: the big parser is slow)
+            other = peb_via_cnfgen(t)
+            if other != (gn, gcl):
+                return dict(where, outcome="kthlist2pebbling and `cnfgen peb <file>` differ", peb=[other[0], other[1][:20]],
+                            output=[gn, gcl[:20]])
         return None
     return dict(where, outcome=why or "no input explains the output", output=[gn, gcl[:20]])
 
